@@ -135,6 +135,15 @@ def run_case(c):
             rec = call(a["op"], inp, lambda: apply(nc, a), lambda _: 0)
             observe(rec, lambda: proj(nc), R[-1]["obs"] if R else [])
             rec["others"] = [{"built": b, "now": proj(o)} for b, o in KEPT]
+            if len(R) % 3 == 0 and rec["ok"]:
+                # a second container built FROM this one (constructor, and '+' on an empty one) and then edited by its owner
+                try:
+                    before = proj(nc)
+                    for twin in (NoteContainer(nc), NoteContainer() + nc):
+                        twin.add_note(Note("A", 7)); twin + "B"; twin.add_notes(["D-1"])
+                    rec["others"] = rec["others"] + [{"built": before, "now": proj(nc)}]
+                except Exception:
+                    rec["others"] = rec["others"] + [{"built": before, "now": [{"n": ["?"], "o": 0}]}]
             R.append(rec)
             if c.get("queries", True):
                 q = call("query", {}, lambda: query(nc))
